@@ -301,6 +301,7 @@ def _plan(prop, T):
                 dict(flavour="dbg", suite="clear-twin", args=dict(), shards=16, budget=14000 * 10 * (8 if T else 1)),
                 dict(flavour="rel", suite="clear-twin", args=dict(), shards=16, budget=21000 * 10 * (8 if T else 1), seed_offset=9),
                 dict(flavour="rel", suite="big", args=dict(max_n=4000000 if T else 400000, probes="clear"), shards=16, timeout=3400 if T else 150),
+                dict(flavour="rel", suite="seg-bulk", args=dict(mon="query,purge,tiling,layout", max_n=(6000000 if T else 300000)), shards=8, timeout=3400 if T else 120),
                 miri("clear-twin", 28, 7, T, small=1),
             ],
             rule="evaluation = one operation executed after clear() on the cleared instance and on a freshly constructed twin (other capacity hint) with identical observations required (values by id offset, handles by dereferenced entry), reference model alongside; distinct non-trivial = distinct (history, suffix position)",
